@@ -145,6 +145,12 @@ func New(o Opts) *Bed {
 	}
 	goat.VerifResetTracking()
 	b := &Bed{O: o, Impl: svc.NewImpl()}
+	if len(Recent) >= 16 {
+		// only the check that inspects them (C06, which resets the list after every case) needs the
+		// beds of the current case; without a bound every bed of a child process - links, tap logs
+		// with all their payloads - stays reachable for the child's whole life
+		Recent = append([]*Bed(nil), Recent[len(Recent)-15:]...)
+	}
 	Recent = append(Recent, b)
 	b.Ctx, b.Cancel = context.WithCancel(context.Background())
 	b.Srv = goat.NewServer(o.SrvName, o.SrvOpts...)
